@@ -100,6 +100,22 @@ Theorem C05_fault_isolation :
 Proof. exact fault_isolation. Qed.
 Print Assumptions C05_fault_isolation.
 
+(* the executor station releases the slots of every task it receives exactly
+   once (AGENT_UNSCHEDULE_PUBSUB), whatever the outcome -- including a task
+   removed by the cancel filter at the intake, which is published CANCELED and
+   then released *)
+Theorem C05_aexec_intake_cancel_releases :
+  forall P cl B bf t, NoDup (map t_uid B) -> In t B -> zmem (t_uid t) cl = true ->
+    proj (t_uid t) (snd (work_cb CAExec P cl B bf)) = [pubf (cancel t); Unsched (t_uid t)].
+Proof. exact aexec_intake_cancel_releases. Qed.
+Print Assumptions C05_aexec_intake_cancel_releases.
+
+Theorem C05_aexec_releases_once :
+  forall P cl B bf t, NoDup (map t_uid B) -> In t B ->
+    releases_of (proj (t_uid t) (snd (work_cb CAExec P cl B bf))) = 1%nat.
+Proof. exact aexec_releases_once. Qed.
+Print Assumptions C05_aexec_releases_once.
+
 (* the client, any delivery order *)
 Theorem C05_client_any_order :
   forall u es s ns,
